@@ -170,9 +170,18 @@ def run(chk: lib.Check):
     P_int, P_flt, P_dt = _pods.IntPOD("v"), _pods.FloatPOD("v"), _pods.DatetimePOD("v")
     # ---- int
     ints = [0, 1, -1, 9, 10, -10, 2**63, -2**63, 2**63 - 1, 10**30, -10**30, 2**64, 10**100 + 7, -(10**100)]
-    for _ in range(200 if quick else 3000):
-        nd = rng.choice([1, 2, 5, 18, 19, 20, 40, 200]) if quick else rng.choice([1, 3, 19, 20, 77, 500, 4000])
+    for _ in range(200 if quick else 1500):
+        nd = rng.choice([1, 2, 5, 18, 19, 20, 40, 200]) if quick else rng.choice([1, 3, 19, 20, 40, 77, 150, 200])
         ints.append(rng.choice([-1, 1]) * rng.randrange(10 ** (nd - 1), 10 ** nd))
+    if not quick:
+        ints += [10**600 + 1, -(10**599) - 7]
+    # very long integers: implementation only (binary division in Coq is too slow for them)
+    for _ in range(20 if quick else 300):
+        nd = rng.choice([500, 1000, 4000, 4299])
+        z = rng.choice([-1, 1]) * rng.randrange(10 ** (nd - 1), 10 ** nd)
+        if P_int._from_xml(P_int._to_xml(z)) != z:
+            chk.violation("int:huge", f"IntPOD: a {nd}-digit integer does not read back", {"kind": "int", "digits": nd})
+        chk.note_case(("int-long", nd, z % 10**9))
     c_to, c_from = [], []
     for z in ints:
         txt = P_int._to_xml(z)
